@@ -23,7 +23,7 @@ let state_str (s : rst) =
     | None -> ("none", 0, 0, 0)
     | Some p -> ((match p.rpk with RLength _ -> "length" | RUntilEof -> "eof"
                                    | RChunked RSize -> "c-size" | RChunked (RData _) -> "c-data"
-                                   | RChunked (RDataEnd false) -> "c-dataend" | RChunked (RDataEnd true) -> "c-dataend-cr"
+                                   | RChunked RDataEnd -> "c-dataend"
                                    | RChunked RTrailers -> "c-trailers"),
                  List.length p.rctail, List.length p.rtlines, sum_len p.rtlines) in
   Printf.sprintf "up=%s tail=%d lines=%d linebytes=%d pk=%s ctail=%d tlines=%d tlbytes=%d inflight=%d close=%s"
